@@ -249,6 +249,16 @@ def gen_writer_cases(ctx, thorough):
                 for pos in range(len(its) + 1):
                     cases.append("gen wfmt %d %s / k2 k2" % (variant, " ".join(its[:pos] + ["f"] + its[pos:])))
                     cases.append("gen wfmt %d %s / k2 k2" % (variant, " ".join(its[:pos] + ["s-"] + its[pos:])))
+    # literal-only format strings (no run-time arguments): variants 2 and 3
+    for variant in (2, 3):
+        for wt in ["", "k1 k1 k1 k1 k1 k1 k1 k1 k1 k1 k1 k1 k1 k1 k1 k1 k1 k1 k1 k1", "k2 i k100", "i e4 k3 k200", "k1 e5", "e9", "k0", "k1 k0", "u", "k1 x5",
+                   "k300", "k3 k300", "i i k300", "k70 k10"]:
+            cases.append("gen wfmt %d / %s" % (variant, wt))
+        for _ in range(40):
+            toks = ["k%d" % r.choice([1, 2, 3, 7, 100]) for _ in range(r.range(1, 14))]
+            for _ in range(r.below(3)):
+                toks.insert(r.below(len(toks) + 1), r.choice(["i", "e4"]))
+            cases.append("gen wfmt %d / %s" % (variant, " ".join(toks)))
     for _ in range(1000 if not thorough else 5000):
         items = []
         for _ in range(r.below(6)):
@@ -385,6 +395,10 @@ def judge(case, out):
             items = [None if t == "f" else C.unhex(t[1:]) for t in w[2:sl]]
             if w[1] == "1":
                 items = [b"["] + items + [b"]"]
+            elif w[1] == "2":
+                items = [b"done\n"]
+            elif w[1] == "3":
+                items = [b"literal text without arguments 0123456789 abcdefghijklmnopqrstuvwxyz"]
             toks = w[sl + 1:]
         sink, exp_res, exp_used = writer_spec(items, toks)
         if hx != sink:
